@@ -448,11 +448,11 @@ fn run(ctx: &mut Ctx) {
     }
     ctx.exhaustive("for every (input, configuration, cut set) explored, every refill call index 0..F is used as the fault point, for both fault kinds");
     let plan = Plan {
-        grammar_docs: t.pick(15_000, 150_000),
+        grammar_docs: t.pick(15_000, 750_000),
         bom_share: 5,
         corpus: true,
         corpus_max_len: t.pick(2048, 8192),
-        random_atoms: t.pick(30_000, 300_000),
+        random_atoms: t.pick(30_000, 1_500_000),
         ..Plan::default()
     };
     for_each_input(ctx, &plan, &mut |ctx, input, src, r| {
